@@ -38,6 +38,13 @@ type (
 	AddrError    = net.AddrError
 	DNSError     = net.DNSError
 	HardwareAddr = net.HardwareAddr
+	// Buffers is the real type: on a simulated connection its WriteTo takes the generic path, one Write per buffer,
+	// consuming what was written also when a write fails - what the real one does on a connection without writev
+	Buffers             = net.Buffers
+	ParseError          = net.ParseError
+	UnknownNetworkError = net.UnknownNetworkError
+	InvalidAddrError    = net.InvalidAddrError
+	KeepAliveConfig     = net.KeepAliveConfig
 )
 
 var (
@@ -50,6 +57,10 @@ var (
 	ErrClosed     = net.ErrClosed
 	IPv4zero      = net.IPv4zero
 	IPv6zero      = net.IPv6zero
+	IPv4Mask      = net.IPv4Mask
+	IPv6loopback  = net.IPv6loopback
+	IPv6unspecified = net.IPv6unspecified
+	LookupPort    = net.LookupPort
 )
 
 const (
